@@ -459,4 +459,12 @@ theorem Alive.get {s : St} (h : Alive s) (x : Side) : (s.get x).dead = false ∧
   · exact ⟨h.a, h.aa⟩
   · exact ⟨h.b, h.ab⟩
 
+/-- what the property demands of a state: both sides are still serving, and every request sent is in
+exactly one place — in the peer's inbox, being handled on the peer's stack, or answered exactly once -/
+structure Good (s : St) : Prop where
+  open_a : s.a.dead = false
+  open_b : s.b.dead = false
+  one : ∀ x r, r ∈ (s.get x).issued →
+    nReq r (s.get x.peer).inbox + nHand r (s.get x.peer).stack + nKey r (s.get x.peer).answered = 1
+
 end Rpyc.Proto.Ledger
